@@ -34,22 +34,22 @@ func init() { register("C20", "exploration", checkC20) }
 
 // pipeLedger is the anchoring system: assigns time/number/references and feeds the observer.
 type pipeLedger struct {
-	mu      sync.Mutex
-	now     uint64
-	n       uint64
-	pending []txn.SidetreeTxn
-	all     []txn.SidetreeTxn
-	ch      chan []txn.SidetreeTxn
-	step    func() uint64 // time increment per anchored batch
-	direct  bool          // concurrent mode: push to the observer immediately
-	refsOf  map[string][]*operation.Reference
-	failing func() bool // fault injection: true = this WriteAnchor call fails (called without the ledger lock)
-	altSources []string // stamped on every transaction (nodes that hold the batch files)
+	mu         sync.Mutex
+	now        uint64
+	n          uint64
+	pending    []txn.SidetreeTxn
+	all        []txn.SidetreeTxn
+	ch         chan []txn.SidetreeTxn
+	step       func() uint64 // time increment per anchored batch
+	direct     bool          // concurrent mode: push to the observer immediately
+	refsOf     map[string][]*operation.Reference
+	failing    func() bool // fault injection: true = this WriteAnchor call fails (called without the ledger lock)
+	altSources []string    // stamped on every transaction (nodes that hold the batch files)
 	// fault: the operation store fails while a notification is processed (storeFault arms it and says so; afterFailedDelivery
 	// disarms it and judges the node before the transactions are delivered again)
-	storeFault           func() bool
-	afterFailedDelivery  func()
-	junk    func(next txn.SidetreeTxn) *txn.SidetreeTxn // fault injection: an unprocessable transaction delivered just before `next`
+	storeFault          func() bool
+	afterFailedDelivery func()
+	junk                func(next txn.SidetreeTxn) *txn.SidetreeTxn // fault injection: an unprocessable transaction delivered just before `next`
 }
 
 func (l *pipeLedger) WriteAnchor(anchor string, _ []*protocol.AnchorDocument, refs []*operation.Reference, ver uint64) error {
@@ -193,7 +193,7 @@ type pipeline struct {
 	cas      *hx.MemCAS
 	aliases  []string
 	label    string
-	rawTimes bool // direct submissions name the protocol version by the current ledger time instead of its genesis time
+	rawTimes bool         // direct submissions name the protocol version by the current ledger time instead of its genesis time
 	projOpts ref.ProjOpts // how the DID transformer of this node is configured (method contexts, @base)
 }
 
@@ -1076,13 +1076,15 @@ func versionBoundaryScenarios(c *hx.Ctx) {
 					return false
 				}
 			}
-			svc := func(id string) []interface{} { return []interface{}{patchAddServices(svcEntry(id, "t", "https://e.example/"+id))} }
+			svc := func(id string) []interface{} {
+				return []interface{}{patchAddServices(svcEntry(id, "t", "https://e.example/"+id))}
+			}
 			u1, _ := a.Update(svc("one"), 0, 0)
 			u2, _ := a.Update(svc("two"), 0, 0)
 			if !submit("A-update-1", u1.Req) || !submit("A-update-2", u2.Req) {
 				return false
 			}
-			step = 600 // the next anchored batch moves the ledger clock past the genesis time of version 500
+			step = 600  // the next anchored batch moves the ledger clock past the genesis time of version 500
 			tick(false) // monitor tick: cuts exactly the full batch [X1 X2 X3]
 			step = 5
 			if pl.ledger.Now() < 500 {
